@@ -95,7 +95,9 @@ COLOURS = [({}, (0, 0, 0, 255), (255, 255, 255, 255)),
            (dict(dark='#0000ffcc', light='white'), (0, 0, 255, 204), (255, 255, 255, 255)),
            (dict(dark='#808080', light='#fff'), (128, 128, 128, 255), (255, 255, 255, 255)),
            # black / white modules on a transparent background (grey + alpha images)
-           (dict(light=None), (0, 0, 0, 255), None), (dict(dark='white', light=None), (255, 255, 255, 255), None), (dict(dark='#000', light=None), (0, 0, 0, 255), None)]
+           (dict(light=None), (0, 0, 0, 255), None), (dict(dark='white', light=None), (255, 255, 255, 255), None), (dict(dark='#000', light=None), (0, 0, 0, 255), None),
+           # a dark colour with its own alpha value on a transparent background
+           (dict(dark='#ff000080', light=None), (255, 0, 0, 128), None), (dict(dark=(10, 20, 200, 77), light=None), (10, 20, 200, 77), None)]
 
 
 def supports(kind, ckw):
@@ -103,14 +105,15 @@ def supports(kind, ckw):
         return True
     if kind in ('pbm', 'xbm') + TEXT:
         return False
-    alpha = any(isinstance(v, str) and len(v.lstrip('#')) in (4, 8) and v.startswith('#') for v in ckw.values())
+    alpha = any((isinstance(v, str) and len(v.lstrip('#')) in (4, 8) and v.startswith('#')) or (isinstance(v, tuple) and len(v) == 4) for v in ckw.values())
     transparent = any(v is None for v in ckw.values())
     if kind == 'ppm':
         return not alpha and not transparent
     if kind == 'xpm':
         return not alpha and ckw.get('dark', 1) is not None
     if kind == 'pam':
-        return not alpha and ckw.get('dark', 1) is not None
+        # an alpha channel is accepted by the PAM writer only together with a transparent light colour
+        return (not alpha or ('light' in ckw and ckw['light'] is None)) and ckw.get('dark', 1) is not None
     return True
 
 
